@@ -358,7 +358,10 @@ class Engine:
             box, field = ev.box, ev.field
             # all reads of this counter (on any box that may alias) are now stale
             fresh = frozenset(f for f in st.fresh if not (f[2] == field and (f[1] == box or not st.distinct(f[1], box))))
-            st = st.replace(fresh=fresh)
+            fl = frozenset(f for f in st.flags if not (f[0] == "cur" and f[2] == field and (f[1] == box or not st.distinct(f[1], box))))
+            if isinstance(ev.get("value"), tuple) and not is_const(ev.value):
+                fl = fl | {("cur", box, field, ev.value)}
+            st = st.replace(fresh=fresh, flags=fl)
             if field == "strong":
                 ss = {}
                 for kb, v in st.ss:
@@ -458,6 +461,8 @@ class Engine:
                     v = "0"
                 elif listed == ["0"]:
                     v = "1"
+                elif set(listed) >= {"0", "1"}:
+                    return None  # both variants of the Option are handled explicitly
             if v == "otherwise":
                 if known is not None and known in listed:
                     return None
@@ -528,6 +533,24 @@ class Engine:
             if is_const(x) and not is_const(y):
                 op, x, y = SWAP[op], y, x
             if is_const(y):
+                # a test of the very expression that was last stored into a counter is a test of the counter
+                for f in st.flags:
+                    if f[0] == "cur" and f[3] == x:
+                        box, field = f[1], f[2]
+                        if field == "strong":
+                            new = st.strong(box) & classes_for(op, y[1], truth)
+                            if not new:
+                                return None
+                            ss = dict(st.ss)
+                            ss[box] = new
+                            st = st.replace(ss=fz(ss))
+                        for r in self.rules:
+                            h = getattr(r, "on_counter_test", None)
+                            if h:
+                                x2 = h(self, st, box, field, op, y[1], truth, b)
+                                if x2 is not None:
+                                    st = x2
+                        return st
                 if x[0] == "bin" and x[1] in ("Sub", "SubUnchecked") and is_const(x[3]) and counter_read(x[2]) is not None:
                     # (count - k) op c  <=>  count op (c + k)   (no wrap: count >= k on every such read in practice)
                     y = const(int(y[1]) + int(x[3][1]))
